@@ -1,13 +1,12 @@
 #!/bin/sh
-# usage: tools/try_patch.sh <patch.diff> [Cnn ...]   - apply a patch to /repo, run the checks, undo it
-# (development helper; never leaves /repo modified)
+# usage: tools/try_patch.sh <patch.diff> [Cnn ...]   - run the checks against a scratch worktree of /repo with the patch applied
+# (development helper; /repo itself is not touched; DROOP_REPO points the analyser at the scratch tree)
 set -u
-P="$1"; shift
-cd /repo || exit 2
-if ! git diff --quiet; then echo "refusing: /repo has uncommitted changes"; exit 2; fi
-git apply "$P" || { echo "patch does not apply"; exit 2; }
+P="$(readlink -f "$1")"; shift
+WT="$(mktemp -d -u /tmp/trypatch-XXXXXX)"
+git -C /repo worktree add -q --detach "$WT" HEAD || exit 2
+( cd "$WT" && git apply "$P" ) || { echo "patch does not apply"; git -C /repo worktree remove --force "$WT"; exit 2; }
 cd /verif
 if [ $# -eq 0 ]; then set -- all; fi
-VERIF_NOWRITE=1 ./check "$@" 2>&1 | grep -v conda | grep -E "VIOLATION|ANALYSIS-ERROR|\[R[0-9]+\]" | cut -c1-330
-git -C /repo checkout -- .
-git -C /repo status --short | head -3
+DROOP_REPO="$WT" VERIF_NOWRITE=1 ./check "$@" 2>&1 | grep -v conda | grep -E "VIOLATION|ANALYSIS-ERROR|\[R[0-9]+[a-z]?\]" | cut -c1-330
+git -C /repo worktree remove --force "$WT"
